@@ -235,8 +235,10 @@ type scenario struct {
 	prefix     int // the first prefix calls are issued one after the other, the rest together
 	depth      int
 	remoting   bool
-	cluster    bool // single-node cluster on loopback: Stop first leaves the cluster (Context.Leave)
-	startFails int  // 0 no; 1 invalid advertise address (NewContext of the root fails); (2 remoting port already in use: Start still returns nil, the listen error is handled by the server actor later - not used)
+	cluster    bool          // single-node cluster on loopback: Stop first leaves the cluster (Context.Leave)
+	metrics    bool          // metrics enabled: the start-up chain calls System.ActorOf("@metrics") (actorOfLock) under statusLock; no TCP port
+	watchdog   time.Duration // > 0: hang limit of every call of this scenario (instead of 10x the stop timeout)
+	startFails int           // 0 no; 1 invalid advertise address (NewContext of the root fails); (2 remoting port already in use: Start still returns nil, the listen error is handled by the server actor later - not used)
 	blocks     bool
 	gomax      int
 }
@@ -299,7 +301,7 @@ func (sc scenario) describe() string {
 		}
 		parts = append(parts, s)
 	}
-	return fmt.Sprintf("[%s] prefix=%d depth=%d remoting=%v cluster=%v startFails=%v blocks=%v GOMAXPROCS=%d", strings.Join(parts, ", "), sc.prefix, sc.depth, sc.remoting, sc.cluster, sc.startFails, sc.blocks, sc.gomax)
+	return fmt.Sprintf("[%s] prefix=%d depth=%d remoting=%v cluster=%v metrics=%v startFails=%v blocks=%v GOMAXPROCS=%d", strings.Join(parts, ", "), sc.prefix, sc.depth, sc.remoting, sc.cluster, sc.metrics, sc.startFails, sc.blocks, sc.gomax)
 }
 
 type H struct {
@@ -308,6 +310,7 @@ type H struct {
 	abortB         bool
 	abortA         bool // a call hung: every further scenario would wait for its hang limit again
 	unexpectedFail int
+	loSeen         map[string]bool
 }
 
 func (h *H) runScenario(sc scenario) {
@@ -328,6 +331,9 @@ func (h *H) runScenario(sc scenario) {
 		vivid.WithActorSystemContext(parent),
 		vivid.WithActorSystemLogger(log.NewSilentLogger()),
 		vivid.WithActorSystemStopTimeout(sysTimeout),
+	}
+	if sc.metrics {
+		opts = append(opts, vivid.WithActorSystemEnableMetrics(true))
 	}
 	var busy net.Listener
 	if sc.startFails == 1 {
@@ -371,6 +377,9 @@ func (h *H) runScenario(sc scenario) {
 		res[i] = callResult{code: code(err), dur: time.Since(t0), done: true}
 	}
 	limitOf := func(c rcall) time.Duration {
+		if sc.watchdog > 0 {
+			return sc.watchdog
+		}
 		t := sysTimeout
 		if c.kind == kStop && c.hasTmo {
 			t = c.tmo
@@ -384,6 +393,9 @@ func (h *H) runScenario(sc scenario) {
 	// wait for a set of calls (each running in its own goroutine) with the hang limit
 	await := func(idx []int, dones []chan struct{}) {
 		for k, i := range idx {
+			if hung {
+				break // one report per scenario: the other calls of a wedged system are wedged too
+			}
 			select {
 			case <-dones[k]:
 			case <-time.After(limitOf(sc.calls[i])):
@@ -392,11 +404,16 @@ func (h *H) runScenario(sc scenario) {
 				stacks := allStacks()
 				var blocked []string
 				for _, blk := range stacks {
-					if strings.Contains(blk, "internal/actor.(*System)") {
+					// (goroutines of an abandoned controlled run that are stuck for good are not this scenario's)
+					if strings.Contains(blk, "internal/actor.(*System)") && !strings.Contains(blk, "main.(*H).lockstep") {
 						blocked = append(blocked, blk)
 					}
 				}
 				sort.Strings(blocked)
+				if cyc := lockCycleReport(blocked); cyc != "" {
+					h.o.Monitor("c07-start-stop-deadlock", sc.term(nil, sc.blocks), fmt.Sprintf("%s: call #%d has not returned after %v and never will: LOCK-ORDER DEADLOCK between System methods.\n%s\ngoroutines inside System methods:\n%s",
+						sc.describe(), i, limitOf(sc.calls[i]), cyc, strings.Join(blocked, "\n\n")))
+				}
 				h.o.Monitor("hang", sc.term(nil, sc.blocks), fmt.Sprintf("%s: call #%d has not returned after %v (10x its timeout, at least 3 s). goroutines inside System methods:\n%s",
 					sc.describe(), i, limitOf(sc.calls[i]), strings.Join(blocked, "\n\n")))
 			}
@@ -475,6 +492,9 @@ func (h *H) runScenario(sc scenario) {
 	h.o.Stats[fmt.Sprintf("rt-depth=%d", sc.depth)]++
 	if sc.remoting {
 		h.o.Stats["rt-remoting"]++
+	}
+	if sc.metrics {
+		h.o.Stats["rt-metrics"]++
 	}
 
 	// ---- monitors ----
@@ -630,6 +650,68 @@ func (h *H) runScenario(sc scenario) {
 	}
 }
 
+// lockCycleReport: at least two instrumented locks of the system (statusLock, actorOfLock) are each HELD by one call
+// site and WANTED by another, and goroutines of System methods are parked in sync.Mutex.Lock: the description of who
+// holds what and who waits where ("" if that is not the situation).
+func lockCycleReport(blocked []string) string {
+	rep := vsched.RealLockReport()
+	var lines []string
+	heldAndWanted := 0
+	for _, r := range rep {
+		var ws []string
+		for l, n := range r.Waiters {
+			ws = append(ws, fmt.Sprintf("%q (%d goroutine(s))", l, n))
+		}
+		sort.Strings(ws)
+		if r.HeldSince != "" {
+			heldAndWanted++
+			lines = append(lines, fmt.Sprintf("%s is held by the call at %q and wanted at %s", r.Name, r.HeldSince, strings.Join(ws, ", ")))
+		} else {
+			lines = append(lines, fmt.Sprintf("%s is wanted at %s", r.Name, strings.Join(ws, ", ")))
+		}
+	}
+	sort.Strings(lines)
+	inMutex := 0
+	var sites []string
+	for _, blk := range blocked {
+		if !strings.Contains(blk, "[sync.Mutex.Lock") {
+			continue
+		}
+		inMutex++
+		// the vivid frames of the goroutine, innermost first: the lock site and how it was reached
+		var path []string
+		ls := strings.Split(blk, "\n")
+		for i := 0; i+1 < len(ls); i++ {
+			if strings.Contains(ls[i], "vivid/internal/actor.") && !strings.HasPrefix(ls[i], "created by") {
+				fn := ls[i]
+				if k := strings.Index(fn, "vivid/internal/actor."); k >= 0 {
+					fn = fn[k+len("vivid/internal/"):]
+				}
+				if k := strings.LastIndex(fn, "("); k > 0 {
+					fn = fn[:k]
+				}
+				loc := strings.TrimSpace(ls[i+1])
+				if k := strings.Index(loc, " +0x"); k > 0 {
+					loc = loc[:k]
+				}
+				if k := strings.LastIndex(loc, "/"); k >= 0 {
+					loc = loc[k+1:]
+				}
+				path = append(path, fn+" ("+loc+")")
+			}
+		}
+		if len(path) > 0 {
+			sites = append(sites, "blocked in sync.Mutex.Lock: "+strings.Join(path, " <- "))
+		}
+	}
+	if heldAndWanted < 2 || inMutex < 2 {
+		return ""
+	}
+	sort.Strings(sites)
+	return "lock sites (labels = function:Lock:lock expression of the instrumented system.go):\n  " + strings.Join(lines, "\n  ") + "\n  " + strings.Join(sites, "\n  ") +
+		"\n  (line numbers are those of the instrumented copy of system.go: a few lines below the original)"
+}
+
 // quiesce waits until no goroutine is inside System.Start / Stop / stop any more (the controlled scheduler
 // must not be installed while ordinary goroutines still run instrumented code).
 func quiesce(d time.Duration) bool {
@@ -701,6 +783,27 @@ func (h *H) tierA(r *lib.Rand, thorough bool) {
 		return out
 	}
 	nScen := 0
+	// (0) Start || Stop (and || a second Stop / cancel) on systems WITH metrics: the start-up chain spawns @metrics
+	// through System.ActorOf, i.e. takes actorOfLock while Start holds statusLock - any Stop-side code that takes the
+	// two locks in the other order deadlocks here. Watchdog 3 s per call (the stop timeout is 1.5 s).
+	nm := 400
+	if thorough {
+		nm = 6000
+	}
+	mshapes := [][]rcall{
+		{{kind: kStart}, {kind: kStop, hasTmo: true, tmo: time.Second}},
+		{{kind: kStart}, {kind: kStop}, {kind: kStop, hasTmo: true, tmo: time.Second}},
+		{{kind: kStart}, {kind: kCancel}, {kind: kStop, hasTmo: true, tmo: time.Second}},
+		{{kind: kStart}, {kind: kStart}, {kind: kStop, hasTmo: true, tmo: time.Second}},
+	}
+	for i := 0; i < nm && !h.abortA; i++ {
+		shape := mshapes[0]
+		if i%4 == 3 {
+			shape = mshapes[1+(i/4)%3]
+		}
+		h.runScenario(scenario{calls: shape, prefix: 0, metrics: true, watchdog: 3 * time.Second, gomax: []int{2, 4, 8, 16}[i%4]})
+	}
+	h.o.Info["rt_metrics_race_attempts"] = nm
 	// (1) sequential, every order of every multiset
 	for ns := 0; ns <= 2; ns++ {
 		for nt := 0; nt <= 3; nt++ {
@@ -802,6 +905,10 @@ func labelCode(l string) uint64 {
 		return 3
 	case strings.HasPrefix(l, "initializeMetrics:stmt:"):
 		return 4
+	case l == "ActorOf:Lock:s.actorOfLock":
+		// System.ActorOf called by the start-up chain (metrics enabled) on the Start thread, which holds statusLock:
+		// in the micro-step model this is still the chain step (see lockstep: the step in front of it is not reported)
+		return 4
 	case l == "stop:stmt:if s.clusterContext != nil {":
 		return 5
 	case l == "stop:s.clusterContext.Leave":
@@ -832,13 +939,21 @@ type snap struct {
 	lastSelect int
 }
 
-func (h *H) lockstep(calls []tcall, choose func([]int, int) int) []vsched.Choice {
+// lockstep runs one schedule. metrics: the system is created WITH metrics, so that the start-up chain calls
+// System.ActorOf("@metrics") - and takes actorOfLock - while Start holds statusLock (no TCP port is needed). The
+// model's chain step is then the step that STARTS at the acquisition of actorOfLock; the scheduling point in front
+// of it (`if system.options.Metrics != nil`, which only assigns system.metrics) is not reported to the model.
+func (h *H) lockstep(calls []tcall, metrics bool, choose func([]int, int) int) []vsched.Choice {
 	parent, cancelParent := context.WithCancel(context.Background())
-	sys := actor.NewSystem(
+	opts := []vivid.ActorSystemOption{
 		vivid.WithActorSystemContext(parent),
 		vivid.WithActorSystemLogger(log.NewSilentLogger()),
-		vivid.WithActorSystemStopTimeout(2*time.Second),
-	)
+		vivid.WithActorSystemStopTimeout(2 * time.Second),
+	}
+	if metrics {
+		opts = append(opts, vivid.WithActorSystemEnableMetrics(true))
+	}
+	sys := actor.NewSystem(opts...)
 	s := vsched.New(choose)
 	s.MaxSteps = 600
 	n := len(calls)
@@ -925,6 +1040,9 @@ func (h *H) lockstep(calls []tcall, choose func([]int, int) int) []vsched.Choice
 			if lab == 97 {
 				unknown = st.Label
 			}
+			if metrics && strings.HasPrefix(st.Label, "initializeMetrics:stmt:") {
+				continue // see the comment of lockstep
+			}
 			alt := 0
 			if lab == 10 {
 				alt = sn.lastSelect
@@ -1010,8 +1128,19 @@ func (h *H) lockstep(calls []tcall, choose func([]int, int) int) []vsched.Choice
 		if s.Overrun {
 			what = "no-termination"
 		}
-		h.o.Monitor(what, in, fmt.Sprintf("calls %v: unfinished threads that wait neither for a context cancel nor for the environment: %s | all: %s", describeCalls(calls), strings.Join(stuck, ", "), s.Stuck()))
+		waits, cycle := s.LockWaits()
+		lockPart := ""
+		if len(waits) > 0 {
+			lockPart = " | locks: " + strings.Join(waits, "; ")
+		}
+		if cycle && s.Deadlock {
+			// every thread is parked in front of a lock whose holder is parked in front of a lock: a lock-order cycle
+			h.o.Monitor("c07-start-stop-deadlock", in, fmt.Sprintf("controlled schedule of calls %v (metrics=%v): LOCK-ORDER DEADLOCK, no thread can ever run again: %s | schedule (thread:label): %s",
+				describeCalls(calls), metrics, strings.Join(waits, "; "), scheduleText(s)))
+		}
+		h.o.Monitor(what, in, fmt.Sprintf("calls %v (metrics=%v): unfinished threads that wait neither for a context cancel nor for the environment: %s | all: %s%s", describeCalls(calls), metrics, strings.Join(stuck, ", "), s.Stuck(), lockPart))
 	}
+	h.lockOrderCase(calls, n, guardTid, s)
 	if treeTimeout {
 		h.abortB = true // every further run that issues the kill would wait again
 		h.o.Monitor("root-not-terminated", in, "Kill(root) was issued but guardClosedSignal was not closed within 5 s on a system without user actors")
@@ -1082,6 +1211,74 @@ func (h *H) lockstep(calls []tcall, choose func([]int, int) int) []vsched.Choice
 	return s.Choices
 }
 
+func scheduleText(s *vsched.Sched) string {
+	var parts []string
+	for _, st := range s.Trace {
+		parts = append(parts, fmt.Sprintf("%d:%s", st.Real, st.Label))
+	}
+	if len(parts) > 60 {
+		parts = append(parts[:60], "...")
+	}
+	return strings.Join(parts, " > ")
+}
+
+// lockOrderCase: the lock operations every thread of the run performed, in its own order, as a case for the
+// lock-order machine of System/LockOrder.v (kind 3): the model answers, per thread, whether the sequence respects
+// the lock hierarchy statusLock < actorOfLock (well bracketed, never acquiring a lock while holding a higher or
+// equal one) and whether it is a prefix of the program the model assigns to that kind of thread.
+func (h *H) lockOrderCase(calls []tcall, n int, guardTid int, s *vsched.Sched) {
+	lockID := func(name string) (uint64, bool) {
+		switch name {
+		case "s.statusLock":
+			return 0, true
+		case "s.actorOfLock":
+			return 1, true
+		}
+		return 0, false
+	}
+	per := map[int][]lib.T{}
+	for _, op := range s.LockOps {
+		id, ok := lockID(op.Name)
+		if !ok {
+			h.o.Stats["lo-unknown-lock:"+op.Name]++
+			id = 9
+		}
+		per[op.Tid] = append(per[op.Tid], lib.L(lib.Bool(op.Acquire), lib.N(id)))
+	}
+	var threads, outs []lib.T
+	nops := 0
+	add := func(kind uint64, tid int) {
+		_, done := s.ThreadLabel(tid)
+		threads = append(threads, lib.L(lib.N(kind), lib.Bool(done), lib.LS(per[tid])))
+		outs = append(outs, lib.L(lib.Bool(true), lib.Bool(true)))
+		nops += len(per[tid])
+	}
+	for i, c := range calls {
+		switch c.kind {
+		case kStart:
+			add(0, i)
+		case kStop:
+			add(1, i)
+		default:
+			add(3, i)
+		}
+	}
+	if guardTid >= 0 {
+		add(2, guardTid)
+	}
+	in := lib.L(lib.N(3), lib.LS(threads))
+	key := lib.Show(in)
+	if h.loSeen == nil {
+		h.loSeen = map[string]bool{}
+	}
+	h.o.Stats["lo-runs"]++
+	if h.loSeen[key] { // one case per distinct vector of per-thread lock sequences
+		return
+	}
+	h.loSeen[key] = true
+	h.o.Case("lo-lock-order", nops >= 4, in, lib.LS(outs))
+}
+
 func describeCalls(calls []tcall) []string {
 	out := make([]string, len(calls))
 	for i, c := range calls {
@@ -1112,13 +1309,32 @@ func (h *H) tierB(r *lib.Rand, thorough bool) {
 		bound, perCfg = 3, 8000
 	}
 	total := 0
+	// first the systems whose start-up chain takes actorOfLock under statusLock (metrics enabled): Start against
+	// Stop / cancel / a second Start, every schedule up to the preemption bound
+	withMetrics := [][]tcall{{st, sp}, {sp, st}, {st, sp, sp}, {st, st, sp}, {st, ca}, {st, spd, ca}}
+	perM := 120
+	if thorough {
+		perM = 2500
+	}
+	mruns := 0
+	for _, c := range withMetrics {
+		c := c
+		mruns += vsched.Explore(bound, perM, func(choose func([]int, int) int) []vsched.Choice {
+			if h.abortB {
+				return nil
+			}
+			return h.lockstep(c, true, choose)
+		})
+	}
+	h.o.Info["ls_dfs_metrics_configs"] = len(withMetrics)
+	h.o.Info["ls_dfs_metrics_runs"] = mruns
 	for _, c := range fixed {
 		c := c
 		total += vsched.Explore(bound, perCfg, func(choose func([]int, int) int) []vsched.Choice {
 			if h.abortB {
 				return nil
 			}
-			return h.lockstep(c, choose)
+			return h.lockstep(c, false, choose)
 		})
 	}
 	h.o.Info["ls_dfs_configs"] = len(fixed)
@@ -1158,7 +1374,7 @@ func (h *H) tierB(r *lib.Rand, thorough bool) {
 		} else {
 			ch = vsched.StickyChooser(rr.Intn, 2+r.Intn(5))
 		}
-		h.lockstep(calls, ch)
+		h.lockstep(calls, i%5 == 4, ch)
 	}
 	h.o.Info["ls_random_runs"] = n
 }
